@@ -334,6 +334,33 @@ func c12Connection(rep *vk.Report, i int, r *rand.Rand, frames []c12Frame, sigPr
 	if r.IntN(2) == 0 {
 		opt.PingDuration = 0
 	}
+	if i%8 == 5 && sigPrefix == "" {
+		// a small size limit, and valid frames of exactly that size and one byte less
+		// (padded with JSON whitespace after the opening bracket); longer frames are left out
+		// (they are outside the statement and end the connection)
+		limit := vk.Pick(r, []int{700, 4096, 70001})
+		opt.MaxMessageLength = int64(limit)
+		var kept []c12Frame
+		padded := 0
+		for _, f := range frames {
+			if len(f.data) > limit {
+				continue
+			}
+			if f.valid && !f.binary && len(f.data) > 0 && f.data[0] == '[' && padded < 6 && len(f.data) < limit && r.IntN(3) == 0 {
+				want := limit - padded%2
+				pad := bytes.Repeat([]byte{' '}, want-len(f.data))
+				nd := append([]byte{'['}, pad...)
+				nd = append(nd, f.data[1:]...)
+				f.data = nd
+				f.class += "/at-size-limit"
+				padded++
+			}
+			kept = append(kept, f)
+		}
+		frames = kept
+		rep.Count("connections_with_small_size_limit", 1)
+		rep.Count("frames_of_exactly_the_size_limit_or_one_less", int64(padded))
+	}
 	// some sessions outlive the send timeout: idle periods between frames must not
 	// end a session whose peer keeps reading
 	pauseAt, pause := -1, time.Duration(0)
